@@ -132,6 +132,11 @@ def run_jobs(modname, jobs, deadline, nproc, slice_s, verbose=False):
                 if results[i] is not None and results[i].get('skipped'):
                     results[i] = None
                 results[i] = _merge(results[i], r)
+                cap = (jobs[i].get('opts') or {}).get('max_paths')
+                if pend and cap is not None and results[i]['paths'] >= cap:
+                    results[i]['exhaustive'] = False
+                    results[i]['unexplored_prefixes'] += len(pend)
+                    pend = []
                 if pend:
                     # shallow prefixes (big sub-trees) first, a few prefixes per task
                     pend.sort(key=len)
